@@ -5,4 +5,6 @@ WT=/tmp/wt_$1
 if [ -d "$WT" ]; then echo "$WT exists"; exit 0; fi
 git -C /repo worktree add --detach "$WT" HEAD >/dev/null 2>&1
 cp -a --reflink=auto /repo/target "$WT/target"
+# the copied target directory carries /repo's `ld -> /repo/target/debug/wild` symlink: compiler-driven tests must link with this tree's wild
+ln -sfn "$WT/target/debug/wild" "$WT/target/debug/ld"
 echo "$WT"
